@@ -45,7 +45,7 @@ TProject == /\ l <= Len(Tr) /\ Ev.e = "Project" /\ Step /\ phase = "Finished"
             /\ UNCHANGED <<n, c, scaling, npc, rank, tail, k, ssLeft, evals>>
 
 TBack == /\ l <= Len(Tr) /\ Ev.e = "Back" /\ Step /\ phase = "Projected"
-         /\ PropBack(Ev.err)
+         /\ PropBack(Ev.err, Ev.repr)
          /\ phase' = "Backed"
          /\ UNCHANGED <<n, c, scaling, npc, rank, tail, k, ssLeft, evals>>
 
